@@ -18,7 +18,7 @@ SHARDS = {'quick': 16, 'thorough': 64}
 TIMEOUT = {'quick': 1500, 'thorough': 7200}
 MUST_HIT = ['Mapping.whole-model', 'Mapping.component', 'Mapping.derived-attributes', 'Mapping.after-edit',
             'Mapping.simple', 'Mapping.linked', 'Mapping.subsuper', 'Mapping.reflexive', 'Schema.roundtrip',
-            'Mapping.real-model-edit']
+            'Mapping.real-model-edit', 'Mapping.unsupported-attribute-type', 'Mapping.identifier-of-derived-attribute']
 MUST_REACH = ['bridgepoint/ooaofooa.py:mk_class', 'bridgepoint/ooaofooa.py:mk_simple_association',
               'bridgepoint/ooaofooa.py:mk_linked_association', 'bridgepoint/ooaofooa.py:mk_subsuper_association',
               'bridgepoint/ooaofooa.py:_get_related_attributes', 'bridgepoint/ooaofooa.py:_get_data_type_name',
@@ -56,7 +56,7 @@ class Mismatch(Exception):
         self.what = what
 
 
-def random_diagram(rng, derived_keys=False):
+def random_diagram(rng, derived_keys=False, extras=False):
     d = bp.Diagram()
     d.component = 'Comp'
     d.enums = [('Color', ['Red', 'Green', 'Blue'], 'pkg')]
@@ -148,7 +148,24 @@ def random_diagram(rng, derived_keys=False):
                 # the referential attribute may itself be referred to (chains of referentials)
                 s.identifiers.append([an])
             d.rels.append(bp.SubSuper(numb, sup.kl, sub_list, sup.where))
+    if extras:
+        # what component extraction must leave out: attributes of data types that are no core type
+        # (the state attribute, instance references, void), and - unless derived attributes are asked
+        # for - an identifier made of a derived attribute (added last: no relationship refers to it)
+        for c in d.classes:
+            if rng.random() < 0.35:
+                STATS['unsupported-attribute-type'] = STATS.get('unsupported-attribute-type', 0) + 1
+                c.attrs.insert(rng.randint(1, len(c.attrs)),
+                               bp.Attr(*rng.choice((('current_state', 'state<State_Model>'),
+                                                    ('peer', 'inst_ref<Object>'), ('nothing', 'void')))))
+            ders = [a.name for a in c.attrs if a.derived is not None]
+            if ders and rng.random() < 0.6:
+                STATS['identifier-of-derived-attribute'] = STATS.get('identifier-of-derived-attribute', 0) + 1
+                c.identifiers.append([ders[0]])
     return d
+
+
+STATS = {}
 
 
 def edit(rng, d):
@@ -267,7 +284,7 @@ def schema_roundtrip(ctx, text, component, derived, exp, tmpdir):
 
 
 def one_diagram(ctx, rng, tmpdir):
-    d = random_diagram(rng)
+    d = random_diagram(rng, extras=rng.random() < 0.5)
     for r in d.rels:
         ctx.hit('Mapping.' + {'Simple': 'simple', 'Linked': 'linked', 'SubSuper': 'subsuper'}[type(r).__name__])
         if isinstance(r, bp.Simple) and r.form.kl == r.part.kl or isinstance(r, bp.Linked) and r.one.kl == r.other.kl:
@@ -305,6 +322,8 @@ def run(ctx):
                 ctx.count('diagrams')
             except Mismatch as e:
                 ctx.violation(e.key, e.what, case=dict(what=e.what))
+        for k, v in STATS.items():
+            ctx.hit('Mapping.' + k, v)
         from vf.checks import c14_real
         c14_real.run(ctx, rng, tmpdir, Mismatch)
     finally:
